@@ -183,7 +183,7 @@ def _row_pen(h, name, gamma=None):
     h.assume(al > 0)
     kw = dict(alpha=al)
     if name in ('BlockMCPenalty', 'BlockSCAD'):
-        g = h.real('gamma') if gamma is None else gamma
+        g = h.real('gamma') if gamma is None else h.constant(gamma)
         h.assume(g > (2 if name == 'BlockSCAD' else 0))
         kw['gamma'] = g
     return h.penalty(getattr(Pm, name), **kw), kw
